@@ -24,6 +24,14 @@ Real classes (every Message subclass, by introspection):
    without the allowed_sign_alg keyword; BackChannelLogoutRequest also against Model/MsgCheck.v bclogout_verify;
  * request objects: every class that declares a `request` parameter x complete / incomplete outer request x
    validly signed complete / incomplete object (the message as it stands after the merge) + forgeries.
+ * WHICH schema (the declared one): every class body's c_param / c_default / c_allowed_values evaluated from the SOURCE
+   TEXT by value (harness/schema_decl.py) against the tables of the class objects after the whole package has been
+   imported (an entry that differs = another class body / module changed this class's schema at import time: a message
+   that the declaration refuses is built and verified); the tables of every class in a FRESH interpreter that imports
+   only ONE module (every module of idpyoidc.message and every module that defines a Message subclass) against the
+   tables after importing everything (a difference = the schema depends on the import order; the second module that
+   makes it appear is searched for and a message is verified under both orders); no two classes share one dict object
+   unless the second does not assign the table.  Generator and oracle of the single-fault matrix read the DECLARED tables.
 Correspondence: Model/Msg.v generic_verify, construct (add_value), authz_verify and jar_verify / par_verify
 (oauth2 JWTSecuredAuthorizationRequest / PushedAuthorizationRequest, signature symbolic) by vm_compute.
 Oracle (from the property text, reads the schema off the class, never calls the model).
@@ -35,10 +43,17 @@ import time
 
 import engine as E
 import msg_common as C
+import schema_decl as S
 from engine import coq_str, coq_list, coq_opt, coq_pyval
 from msg_common import canon, pure_json, coq_msg, coq_res, attempt, kind_sig, tier1, spec_for, tname, fname
 
-RULE = ("every Message subclass (introspection): base message of its required parameters; single-fault matrix "
+RULE = ("the schema every oracle below judges by is the DECLARED one: c_param / c_default / c_allowed_values of every class body "
+        "evaluated from the source text by value (ast; 108 classes, fail closed) compared entry by entry with the tables of the class "
+        "objects after importing the whole package (also a Coq obligation over Gen/SchemaDecl.v and Gen/Schema.v), and the tables of "
+        "every class in a fresh interpreter that imports only ONE module (every module of idpyoidc.message and every module defining a "
+        "Message subclass) compared with the tables after importing everything, with a directed search (second import, message whose "
+        "verify() outcome differs) on a difference; no dict object shared between classes declared by different class bodies; "
+        "every Message subclass (introspection): base message of its required parameters; single-fault matrix "
         "(each required parameter removed, set to '', [], [''], None, 0; each enumerated parameter outside its set) "
         "against Message.verify and the class's verify(); typed-slot matrix = every declared parameter x 14 foreign "
         "values of every JSON type via constructor and from_urlencoded; full truth table (810 rows) of the "
@@ -111,6 +126,16 @@ class Run:
         # the verifier's own encryption key pair (public half published: anybody can encrypt to it)
         self.kj.import_jwks(build_keyjar([{"type": "RSA", "use": ["enc"]}]).export_jwks(private=True), "")
         self.accepting = set()
+        # the DECLARED tables (source text of the class bodies, by value) - what "its schema" means in the property
+        self.decl, self.decl_owners, self.decl_refused = S.declared(self.classes)
+
+    def tables_of(self, cls):
+        """(c_param, c_allowed_values) the class DECLARES; the run-time tables only for a class whose body the
+        evaluator refuses (that refusal is a broken obligation of its own: Props C11_declared_all_evaluated)"""
+        d = self.decl.get(cls.__module__ + "." + cls.__qualname__)
+        if d is None:
+            return cls.c_param, cls.c_allowed_values
+        return d["c_param"], d["c_allowed_values"]
 
     # ------------------------------------------------------------ the schema oracle
     # the verify() functions of known finding accepted:required-missing (generic check BEFORE the merge)
@@ -132,7 +157,8 @@ class Run:
         accepted:required-empty (known finding); every other acceptance of a missing / blank / not-allowed
         value has its own key."""
         d = m._dict
-        for k, ent in cls.c_param.items():
+        c_param, c_allowed = self.tables_of(cls)
+        for k, ent in c_param.items():
             if k == "*":
                 continue
             typ, req = ent[0], ent[1]
@@ -143,7 +169,7 @@ class Run:
                 elif typ is not bool and any(d[k] is e or (not isinstance(d[k], bool) and d[k] == e and type(d[k]) is type(e)) for e in EMPTY):
                     self.ctx.violation("accepted:required-empty" if d[k] == [""] else "accepted:required-blank",
                                        "%s of %s accepted although required %r is empty (%r)" % (how, name, k, d[k]), rec)
-            al = cls.c_allowed_values.get(k)
+            al = c_allowed.get(k)
             if al is not None and k in d and d[k] not in EMPTY:
                 vals = d[k] if isinstance(d[k], list) else [d[k]]
                 bad = [x for x in vals if x not in al]
@@ -176,9 +202,242 @@ class Run:
         res = "(Ok tt)" if out[0] == "ok" else "(Err %s)" % C.EXC[out[1]]
         self.cases["verify"].append(("(%s, %s)" % (inp, res), inp, rec))
 
+    # ------------------------------------------------------------ 0. WHICH schema: declaration, run time, import order
+    @staticmethod
+    def short(name):
+        return name[len("idpyoidc.message."):] if name.startswith("idpyoidc.message.") else name[len("idpyoidc."):] \
+            if name.startswith("idpyoidc.") else name
+
+    def entry_key(self, name, table, key):
+        return "%s.%s[%s]" % (self.short(name), table, key)
+
+    def declared_base(self, name):
+        """a message that satisfies the DECLARED schema of the class: plain values for its required parameters, an
+        allowed value for an enumerated one"""
+        d = self.decl[name]
+        kw = {k: C.plain_value(e) for k, e in d["c_param"].items() if e[1] and k != "*"}
+        for k, al in d["c_allowed_values"].items():
+            ent = d["c_param"].get(k)
+            if k in kw and ent is not None and al:
+                kw[k] = [al[0]] if isinstance(ent[0], list) else al[0]
+        return kw
+
+    def refusing_messages(self, name, table, key, strict, lax):
+        """messages that a class enforcing the entry `strict` refuses and a class enforcing `lax` might accept
+        (rendered entries, see schema_decl.render_entry; None = no such entry): [(what, kwargs)]"""
+        if name not in self.decl:
+            return []
+        base = self.declared_base(name)
+        ent = self.decl[name]["c_param"].get(key)
+        out = []
+        if table == "c_param":
+            if strict is not None and "|required|" in strict and (lax is None or "|required|" not in lax):
+                out.append(("required %r absent" % key, {k: v for k, v in base.items() if k != key}))
+                if ent is not None and (ent[0] is str or isinstance(ent[0], list)):
+                    out.append(("required %r empty" % key, dict(base, **{key: "" if ent[0] is str else []})))
+        elif table == "c_allowed_values" and strict is not None:
+            try:
+                s_vals = json.loads(strict)
+                l_vals = json.loads(lax) if lax is not None else None
+            except ValueError:
+                return []
+            extra = ["zz-not-allowed"] if l_vals is None else [v for v in l_vals if v not in s_vals]
+            for v in extra[:3]:
+                out.append(("%r = %r outside the enumerated set" % (key, v),
+                            dict(base, **{key: [v] if ent is not None and isinstance(ent[0], list) else v})))
+        return [(w, kw) for w, kw in out if pure_json(kw)]
+
+    def verify_here(self, cls, kw):
+        try:
+            r = cls(**copy.deepcopy(kw)).verify()
+        except Exception as e:   # noqa
+            return "refused:" + type(e).__name__
+        return "accepted" if r is not False else "refused:False"
+
+    def declared_tie(self):
+        """(1) declaration against run time.  Every entry (class, table, key) on which the tables evaluated from the
+        source text differ from the tables of the class objects after importing the whole package is a broken
+        obligation (the same comparison is the Coq obligation C11_declared_no_drift over Gen/SchemaDecl.v and
+        Gen/Schema.v); for every such entry a message that the DECLARATION refuses is verified by the real class:
+        accepted = verdict `schema-differs-from-declaration:<class>.<table>[<key>]` with the message as failing input."""
+        ctx = self.ctx
+        self.rt_tables, self.rt_shared, self.rt_nested = S.runtime_tables(self.classes)
+        ctx.count("declared:classes-evaluated", len(self.decl))
+        for name, why in self.decl_refused:
+            ctx.count("declared:class-refused")
+            ctx.notes.append("declared schema of %s not evaluated: %s" % (name, why))
+        self.drift = []
+        for name, cls in self.classes:
+            if name not in self.decl:
+                continue
+            dt = S.render_tables(self.decl[name])
+            n_ent = sum(len(dt[t]) for t in S.TABLES)
+            ctx.count("declared:entries-compared", n_ent)
+            rec0 = {"class": name, "check": "declared-vs-runtime", "entries": n_ent}
+            ctx.case_seen(rec0, n_ent > 0)
+            for table, key, d_txt, r_txt in S.diff_tables(dt, self.rt_tables[name]):
+                ctx.count("declared:entry-differs")
+                ek = self.entry_key(name, table, key)
+                self.drift.append((name, table, key, d_txt, r_txt))
+                found = False
+                for what, kw in self.refusing_messages(name, table, key, d_txt, r_txt):
+                    out = self.verify_here(cls, kw)
+                    rec = {"class": name, "check": "declared-vs-runtime", "table": table, "key": key,
+                           "declared_entry": d_txt, "run_time_entry": r_txt, "message": kw, "verify": out,
+                           "imports": "every module of the idpyoidc package (pkgutil.walk_packages order)",
+                           "replay": "PYTHONPATH=<repo>/src python -c \"import pkgutil, importlib, idpyoidc; "
+                                     "[importlib.import_module(m.name) for m in pkgutil.walk_packages(idpyoidc.__path__, 'idpyoidc.') "
+                                     "if m.name != 'idpyoidc.client.oauth2.add_on.identity_assurance']; "
+                                     "from %s import %s as X; print(X(**%r).verify())\"" % (cls.__module__, cls.__qualname__.split(".")[0], kw)}
+                    ctx.case_seen(rec, True)
+                    if out == "accepted":
+                        found = True
+                        ctx.violation("schema-differs-from-declaration:" + ek,
+                                      "verify() of %s accepts %r (%s) although the class DECLARES %s[%r] = %s; the class object "
+                                      "holds %s after the package has been imported (another class body or module changed "
+                                      "this class's table at import time)" % (name, kw, what, table, key, d_txt, r_txt), rec)
+                        break
+                if not found:
+                    ctx.broken.append("declared schema differs from the run-time table: %s: declared %s, run time %s "
+                                      "(no message found that the declaration refuses and verify() accepts)" % (ek, d_txt, r_txt))
+
+    def isolation(self):
+        """(2) isolation at run time.  One fresh interpreter per module (every module of idpyoidc.message, every module
+        that defines a Message subclass) imports ONLY that module; the tables of every class then loaded must equal
+        the tables after importing the whole package (verdict `schema-depends-on-imports:<entry>`, failing input =
+        the two import orders and a message whose verify() outcome differs between them), and in every interpreter
+        two classes are one dict object only when they get the table from the same class body by plain inheritance
+        (`schema-dict-shared:<table>:<classes>`)."""
+        import pkgutil
+        import idpyoidc.message
+        ctx = self.ctx
+        src = E.REPO + "/src"
+        mods = {"idpyoidc.message"} | {m.name for m in pkgutil.walk_packages(idpyoidc.message.__path__, "idpyoidc.message.")}
+        mods = sorted(mods | {cls.__module__ for _, cls in self.classes})
+        full = [m.name for m in pkgutil.walk_packages(idpyoidc.__path__, "idpyoidc.") if m.name not in C.KNOWN_UNIMPORTABLE]
+        results = S.isolation_probe([[m] for m in mods] + [full], src, python=E.PY)
+        ctx.count("isolation:interpreters", len(results))
+        ref = results[-1]
+        # the reference itself: this process (whole package + harness) against a fresh interpreter with the whole package
+        if "error" in ref or ref.get("import_errors"):
+            ctx.broken.append("isolation: the whole package does not import in a fresh interpreter: %s"
+                              % (ref.get("error") or ref.get("import_errors")))
+        else:
+            for name, _ in self.classes:
+                if ref["tables"].get(name) != self.rt_tables[name]:
+                    ctx.broken.append("isolation: tables of %s in this process differ from a fresh interpreter that "
+                                      "imports the whole package: %s" % (name, S.diff_tables(ref["tables"].get(name) or
+                                                                         {t: [] for t in S.TABLES}, self.rt_tables[name])[:3]))
+        differing = []       # (module, class, table, key, isolated entry, entry after everything)
+        seen_shared = set()
+        byname = self.byname
+
+        def sharing(r, order):
+            for t in S.TABLES:
+                for g in r["shared"][t]:
+                    owners = {}
+                    for n in g:
+                        o = self.decl_owners.get(n, {}).get(t)
+                        owners[n] = o if o is not None else r["owners"].get(n, {}).get(t, "?")
+                    ctx.count("isolation:shared-dict-groups")
+                    if len(set(owners.values())) > 1:
+                        ks = "%s:%s" % (t, "+".join(self.short(n) for n in g))
+                        if ks in seen_shared:
+                            continue
+                        seen_shared.add(ks)
+                        rec = {"check": "shared-dict", "table": t, "classes": g, "declaring_class_of_each": owners,
+                               "imports": order}
+                        ctx.case_seen(rec, True)
+                        ctx.violation("schema-dict-shared:" + ks,
+                                      "%s of %s are ONE dict object although they are declared by different class bodies "
+                                      "(%s): a change made through one class changes what the others enforce" % (t, g, owners), rec)
+            for t in S.TABLES:
+                ctx.count("observation:isolation:inner-list-shared-between-tables", len(r.get("nested", {}).get(t, [])))
+
+        for r in results[:-1]:
+            m = r["order"][0]
+            if "error" in r:
+                ctx.broken.append("isolation: interpreter for %s failed: %s" % (m, r["error"]))
+                continue
+            if r["import_errors"]:
+                if m in C.KNOWN_UNIMPORTABLE:
+                    ctx.count("isolation:known-unimportable")
+                    continue
+                ctx.broken.append("isolation: %s does not import on its own: %s" % (m, r["import_errors"]))
+                continue
+            ctx.count("isolation:modules")
+            sharing(r, r["order"])
+            for name, tabs in sorted(r["tables"].items()):
+                if name not in self.rt_tables:
+                    ctx.broken.append("isolation: class %s appears when only %s is imported but not in the whole package" % (name, m))
+                    continue
+                ctx.count("isolation:class-tables-compared")
+                rec0 = {"check": "isolation", "imports": [m], "class": name}
+                ds = S.diff_tables(tabs, self.rt_tables[name])
+                ctx.case_seen(rec0, bool(tabs["c_param"]))
+                for table, key, a, b in ds:
+                    ctx.count("isolation:entry-differs")
+                    differing.append((m, name, table, key, a, b))
+        sharing({"shared": self.rt_shared, "owners": {n: {t: S.runtime_owner(c, t) for t in S.TABLES} for n, c in self.classes},
+                 "nested": self.rt_nested}, "every module of the package")
+        if not differing:
+            return
+        # directed search: which second import makes the entry change, and a message that tells the two orders apart
+        by_entry = {}
+        for m, name, table, key, a, b in differing:
+            by_entry.setdefault((name, table, key, a, b), []).append(m)
+        by_first = {}       # one round of interpreters per first module
+        for ent, ms in sorted(by_entry.items(), key=lambda x: repr(x)):
+            name = ent[0]
+            m = byname[name].__module__ if byname[name].__module__ in ms else ms[0]
+            by_first.setdefault(m, []).append((ent, ms))
+        for m, ents in sorted(by_first.items()):
+            msgs, probes = {}, []
+            for j, ((name, table, key, a, b), ms) in enumerate(ents):
+                msgs[j] = self.refusing_messages(name, table, key, a, b) + \
+                    [("(reverse) " + w, kw) for w, kw in self.refusing_messages(name, table, key, b, a)]
+                probes += [{"id": "%d:%d" % (j, i), "class": name, "message": kw} for i, (w, kw) in enumerate(msgs[j])]
+            seconds = [x for x in mods if x != m]
+            rs = S.isolation_probe([[m]] + [[m, x] for x in seconds] + [full], src, python=E.PY, probes=probes)
+            ctx.count("isolation:interpreters", len(rs))
+            first, last = rs[0], rs[-1]
+            for j, ((name, table, key, a, b), ms) in enumerate(ents):
+                ek = self.entry_key(name, table, key)
+                culprit = None      # the second import that loads the least and makes the entry change
+                for x, r in zip(seconds, rs[1:-1]):
+                    if "error" not in r and "error" not in first and r["tables"].get(name) and any(
+                            (t2, k2) == (table, key) for t2, k2, _, _ in S.diff_tables(first["tables"][name], r["tables"][name])):
+                        if culprit is None or len(r["tables"]) < len(culprit["tables"]):
+                            culprit = r
+                after = culprit or last
+                rec = {"check": "isolation", "class": name, "table": table, "key": key,
+                       "imports_A": [m], "entry_A": a, "imports_B": after["order"] if culprit else "every module of the package",
+                       "entry_B": b, "modules_where_A_was_seen": ms}
+                hit = None
+                for i, (w, kw) in enumerate(msgs[j]):
+                    pid = "%d:%d" % (j, i)
+                    oa, ob = first.get("probe", {}).get(pid), after.get("probe", {}).get(pid)
+                    if oa is not None and ob is not None and oa != ob and "accepted" in (oa, ob):
+                        hit = (w, kw, oa, ob)
+                        break
+                ctx.case_seen(rec, True)
+                if hit:
+                    w, kw, oa, ob = hit
+                    rec.update({"message": kw, "verify_under_A": oa, "verify_under_B": ob,
+                                "replay": "PYTHONPATH=<repo>/src python -c \"import importlib; [importlib.import_module(m) for m in <imports>]; "
+                                          "from %s import %s as X; print(X(**%r).verify())\""
+                                          % (byname[name].__module__, byname[name].__qualname__.split(".")[0], kw)})
+                    ctx.violation("schema-depends-on-imports:" + ek,
+                                  "%s of %s depends on what has been imported: with %s alone it is %s and verify() of %r is %s; after "
+                                  "importing %s it is %s and the same verify() is %s (%s)"
+                                  % ("%s[%r]" % (table, key), name, [m], a, kw, oa, rec["imports_B"], b, ob, w), rec)
+                else:
+                    ctx.broken.append("schema depends on the import order: %s is %s when only %s is imported and %s after %s "
+                                      "(no message found whose verify() outcome differs)" % (ek, a, m, b, rec["imports_B"]))
+
     # ------------------------------------------------------------ A. single-fault matrix
     def base_message(self, name, cls):
-        kw = C.base_kwargs(cls)
+        kw = {k: C.plain_value(e) for k, e in self.tables_of(cls)[0].items() if e[1] and k != "*"}
         # parameters that would need a key jar are left out of the base message when optional
         b = attempt(lambda: cls(**copy.deepcopy(kw)))
         return kw, b
@@ -192,9 +451,10 @@ class Run:
                 ctx.count("base-message-refused")
                 continue
             m0 = b[1]
+            c_param, c_allowed = self.tables_of(cls)
             # enumerated parameters take an allowed value in the base message
-            for k, al in cls.c_allowed_values.items():
-                ent = cls.c_param.get(k)
+            for k, al in c_allowed.items():
+                ent = c_param.get(k)
                 if ent is not None and al:
                     m0._dict[k] = [al[0]] if isinstance(ent[0], list) else al[0]
             rec0 = {"class": name, "fault": None, "message": canon(dict(m0._dict))}
@@ -209,7 +469,7 @@ class Run:
             if g0[0] != "ok":
                 ctx.notes.append("generic verify refuses the base message of %s (%s)" % (name, g0[1]))
             faults = []
-            for k, ent in cls.c_param.items():
+            for k, ent in c_param.items():
                 if k == "*":
                     continue
                 typ = ent[0]
@@ -228,7 +488,7 @@ class Run:
                 else:
                     for e in empties[:2]:
                         faults.append((k, "optional-emptied", e))
-                al = cls.c_allowed_values.get(k)
+                al = c_allowed.get(k)
                 if al is not None:
                     faults.append((k, "not-allowed", ["zz-not-allowed"] if isinstance(ent[0], list) else "zz-not-allowed"))
                     if isinstance(ent[0], list) and al:
@@ -1926,6 +2186,8 @@ class Run:
 def run(ctx):
     r = Run(ctx)
     ctx.count("classes", len(r.classes))
+    r.declared_tie()
+    r.isolation()
     r.witnesses()
     r.faults()
     r.slots()
